@@ -36,7 +36,8 @@ MODULES = {
     "nonstd": ["vp_sink", "numpy", "torch", "torch.storage", "numpy.testing._private.utils", "foo", "foo.bar",
                "__main__", "numpy.core.multiarray", "torch._utils", "evalmod", "pip._internal"],
 }
-ATTRS = ["eval", "exec", "compile", "open", "load", "loads", "getitem", "attrgetter", "itemgetter",
+ATTRS = ["{}", "{0}", "{name}", "{trigger}", "%s", "%(a)s", "{severity.name}", "$x", "a{b}c",
+         "eval", "exec", "compile", "open", "load", "loads", "getitem", "attrgetter", "itemgetter",
          "methodcaller", "runstring", "_load_from_bytes", "system", "OrderedDict", "x", "__import__",
          "getattr", "_run_code", "execWrapper", "dtype", "Evil", "_reconstruct", "evaluate", "evalx"]
 USES = ["import_result", "import_pop", "import_in_tuple", "call_REDUCE", "call_OBJ", "call_INST", "call_NEWOBJ",
@@ -133,6 +134,24 @@ def check(ctx, f, analysis, loader, UnsafeFileError, label, data):
     if json.dumps(raised.info, sort_keys=True, default=str) != json.dumps(d, sort_keys=True, default=str):
         agg.violation("loader-report-differs", "UnsafeFileError.info differs from to_dict() of an independent run",
                       dict(w, info=str(raised.info)[:300], to_dict=str(d)[:300]))
+        return
+    # ... and at every other accepted severity below the verdict
+    for t in ("POSSIBLY_UNSAFE", "SUSPICIOUS", "LIKELY_UNSAFE", "LIKELY_OVERTLY_MALICIOUS"):
+        thr = getattr(analysis.Severity, t)
+        if not (res.severity > thr):
+            break
+        try:
+            loader.load(io.BytesIO(data), max_acceptable_severity=thr)
+            continue
+        except UnsafeFileError as e:
+            agg.count("loader_reports_compared")
+            if json.dumps(e.info, sort_keys=True, default=str) != json.dumps(d, sort_keys=True, default=str):
+                agg.violation("loader-report-differs:threshold",
+                              f"at accepted severity {t} UnsafeFileError.info differs from to_dict() of an independent run",
+                              dict(w, threshold=t, info=str(e.info)[:300], to_dict=str(d)[:300]))
+                return
+        except Exception:
+            return
 
 
 def corpus(ctx):
